@@ -1,0 +1,50 @@
+// MIT License
+//
+// Copyright (c) 2022-2026 GoAkt Team
+//
+// Permission is hereby granted, free of charge, to any person obtaining a copy
+// of this software and associated documentation files (the "Software"), to deal
+// in the Software without restriction, including without limitation the rights
+// to use, copy, modify, merge, publish, distribute, sublicense, and/or sell
+// copies of the Software, and to permit persons to whom the Software is
+// furnished to do so, subject to the following conditions:
+//
+// The above copyright notice and this permission notice shall be included in all
+// copies or substantial portions of the Software.
+//
+// THE SOFTWARE IS PROVIDED "AS IS", WITHOUT WARRANTY OF ANY KIND, EXPRESS OR
+// IMPLIED, INCLUDING BUT NOT LIMITED TO THE WARRANTIES OF MERCHANTABILITY,
+// FITNESS FOR A PARTICULAR PURPOSE AND NONINFRINGEMENT. IN NO EVENT SHALL THE
+// AUTHORS OR COPYRIGHT HOLDERS BE LIABLE FOR ANY CLAIM, DAMAGES OR OTHER
+// LIABILITY, WHETHER IN AN ACTION OF CONTRACT, TORT OR OTHERWISE, ARISING FROM,
+// OUT OF OR IN CONNECTION WITH THE SOFTWARE OR THE USE OR OTHER DEALINGS IN THE
+// SOFTWARE.
+
+//go:build verif
+
+package actor
+
+import (
+	"github.com/tochemey/goakt/v4/internal/address"
+)
+
+// VerifNewSenderPID returns a bare PID that only carries a path, usable as the
+// sender of a ReceiveContext fed directly to a Mailbox. Verification harness only.
+func VerifNewSenderPID(name string) *PID {
+	return &PID{path: newPath(address.New(name, "verif", "127.0.0.1", 0))}
+}
+
+// VerifNewContext returns a fresh (unpooled) ReceiveContext carrying message
+// and sender. Verification harness only.
+func VerifNewContext(sender *PID, message any) *ReceiveContext {
+	return &ReceiveContext{message: message, sender: sender}
+}
+
+// VerifPooledContext takes a ReceiveContext from the shared pool, as Tell does.
+// Verification harness only.
+func VerifPooledContext(sender *PID, message any) *ReceiveContext {
+	rc := getContext()
+	rc.message = message
+	rc.sender = sender
+	return rc
+}
